@@ -136,13 +136,13 @@ func bigLit(n *big.Int) string {
 	return n.String()
 }
 
-func sel(a, i string) string      { return app("select", a, i) }
-func sto(a, i, v string) string   { return app("store", a, i, v) }
-func add(a, b string) string      { return app("+", a, b) }
-func sub(a, b string) string      { return app("-", a, b) }
-func le(a, b string) string       { return app("<=", a, b) }
-func lt(a, b string) string       { return app("<", a, b) }
-func sel2(h, r, i string) string  { return sel(sel(h, r), i) }
+func sel(a, i string) string        { return app("select", a, i) }
+func sto(a, i, v string) string     { return app("store", a, i, v) }
+func add(a, b string) string        { return app("+", a, b) }
+func sub(a, b string) string        { return app("-", a, b) }
+func le(a, b string) string         { return app("<=", a, b) }
+func lt(a, b string) string         { return app("<", a, b) }
+func sel2(h, r, i string) string    { return sel(sel(h, r), i) }
 func sto2(h, r, i, v string) string { return sto(h, r, sto(sel(h, r), i, v)) }
 
 func forall(vars [][2]string, body string, pats ...string) string {
